@@ -415,6 +415,62 @@ func init() {
 		c.Check(n >= 1, "statesync.chunkQueue :: sender deletions found", "-", ">= 1", fmt.Sprintf("%d", n))
 	})
 
+	// ------------------------------------------------------------------ C14.R10
+	// F26: "a rejected sender is never used again" also for chunks: RejectPeer keeps a rejected sender's
+	// snapshots out of the pool, but its chunks keep arriving. Every place a chunk from the network enters
+	// the queue must be behind "sender not rejected".
+	register("C14", "R10", "K1", "a chunk from the network enters the queue only if its sender was not rejected", 1, func(c *Ctx) {
+		w := c.W
+		n := 0
+		for _, s := range w.allCallsTo("statesync#chunkQueue.Add") {
+			if isMethodOf(s.Fn, "statesync", "chunkQueue") || strings.HasSuffix(w.Fset.Position(s.Instr.Pos()).Filename, "_test.go") {
+				continue
+			}
+			n++
+			call := s.Instr.(ssa.CallInstruction)
+			ch := q(w.expr(callArgs(call)[0]))
+			c.guards(s.Fn, call, funcKey(s.Fn)+" :: queue a chunk", 1, guardRe("its sender was not rejected", `^false\(.*\.IsPeerRejected\(`+ch+`\.Sender\)\)$|^false\(.*\.peerBlacklist\[`+ch+`\.Sender\]\)$`))
+		}
+		c.Check(n >= 1, "statesync :: chunk admission sites found", "-", ">= 1", fmt.Sprintf("%d", n))
+	})
+
+	// ------------------------------------------------------------------ C14.R11
+	// F28: "retry requests are honoured": when the application asks to retry the snapshot, every chunk must be
+	// obtainable again. RetryAll forgets which chunks were returned; it must also release the allocation of
+	// every chunk that is not in the queue (its request died with the previous attempt's fetchers), or nobody
+	// asks for it again and the retry ends in the chunk timeout.
+	register("C14", "R11", "K9+K1", "RetryAll releases the allocation of every chunk that is not present", 3, func(c *Ctx) {
+		w := c.W
+		f := c.fn("statesync", "chunkQueue.RetryAll")
+		if f == nil {
+			return
+		}
+		fk := funcKey(f)
+		reset := false
+		for _, fs := range w.fieldStoresIn(f, "statesync", "chunkQueue", "chunkReturned") {
+			if _, ok := stripConv(fs.Store.Val).(*ssa.MakeMap); ok {
+				reset = true
+			}
+		}
+		c.Check(reset, fk+" :: forgets which chunks were handed to the app", w.pos(f.Pos()), "chunkReturned reset", "chunkReturned is not reset")
+		n := 0
+		for _, call := range w.callsTo(f, "builtin#delete") {
+			if !strings.HasSuffix(w.expr(call.Common().Args[0]), ".chunkAllocated") {
+				continue
+			}
+			n++
+			key := q(w.expr(call.Common().Args[1]))
+			c.guards(call.Parent(), call, fk+" :: release an allocation", 0, guardCmp("the chunk is not in the queue", `\w+\.chunkFiles\[`+key+`\]`, "==", `""`))
+			// every allocation is looked at: the enclosing loop ranges over chunkAllocated and is not left early
+			for _, b := range call.Parent().Blocks {
+				if isLoopHead(b) && loopBlocks(b)[call.Block()] {
+					c.Check(len(loopEarlyExits(b)) == 0, fk+" :: every allocation is examined", w.ipos(call), "no early exit", "the loop over the allocations can be left early")
+				}
+			}
+		}
+		c.Check(n == 1, fk+" :: orphaned allocations are released", w.pos(f.Pos()), "delete(chunkAllocated, i) for absent chunks", "allocations of chunks whose request died with the previous attempt are kept: the chunk is never requested again")
+	})
+
 	// ------------------------------------------------------------------ C14.R6
 	register("C14", "R6", "K1", "chunks: first arrival fixes bytes and sender; the app gets the lowest unreturned index with the recorded sender", 8, func(c *Ctx) {
 		w := c.W
